@@ -6,6 +6,5 @@ Lemma pins_C05_lemma :
   pinned_tz_tzfile__read_tzfile = true /\
   pinned_tz_tzutc_is_ambiguous = true /\
   pinned_tz_tzoffset_is_ambiguous = true /\
-  pinned__common__tzinfo_is_ambiguous = true /\
   pinned__common__tzinfo__fold = true.
 Proof. repeat split; reflexivity. Qed.
